@@ -52,6 +52,7 @@ type TransSpec struct {
 	Ext03  bool                // struct-typed / pointer-to-struct / embedded fields, struct twins (type B A), composite literals, unsafe reads, slice out-params
 	Ifaces map[string][]string // interface -> the translated structs whose pointers implement it (a sum type; result position only)
 	Heads  []string            // functions of which only the leading simple declarations are translated: g_<Func>_head
+	T09    T09Spec             // [ext:T09] (gen/trans_ext09.go) capacity of scratch buffers, foreign variables, functions of the package taken as foreign, dead aliases
 }
 
 type unsupported struct{ msg string }
@@ -181,6 +182,7 @@ type Translator struct {
 	ext08                   // [ext:T08] state of gen/trans_ext08.go
 	inOut   bool            // [func] TransSpec.InOut
 	ext15                   // [ext:T15] state of gen/trans_ext15.go
+	ext09                   // [ext:T09] state of gen/trans_ext09.go
 }
 
 type stubImporter struct{}
@@ -367,6 +369,7 @@ func Translate(repo string, spec TransSpec) (out string, err error) {
 	t.info = &types.Info{Types: map[ast.Expr]types.TypeAndValue{}, Defs: map[*ast.Ident]types.Object{},
 		Uses: map[*ast.Ident]types.Object{}, Selections: map[*ast.SelectorExpr]*types.Selection{}}
 	defer begin08(repo, spec)() // [ext:T08] import context (stubs of foreign packages)
+	t.begin09(p, spec)          // [ext:T09] source normalisation (capacity-tracked scratch buffers), before type checking
 	conf := types.Config{Importer: stubImporter{}, Error: func(error) {}}
 	conf.Importer = t.importer15(spec, conf.Importer) // [ext:T15] real packages of the module, typed fmt.Errorf / encoding/hex stubs
 	tpkg, _ := conf.Check(spec.Dir, p.Fset, p.Files, t.info)
@@ -381,6 +384,7 @@ func Translate(repo string, spec TransSpec) (out string, err error) {
 	t.setup07(spec)                // [ext:T07]
 	t.setup17(spec)                // [ext:T17]
 	t.setup08(spec)                // [ext:T08]
+	t.setup09(spec)                // [ext:T09]
 	t.setup15(spec)                // [ext:T15]
 	for _, f := range p.Files {
 		for _, d := range f.Decls {
@@ -570,6 +574,9 @@ func (t *Translator) addFunc(key string) *funcInfo {
 
 // calleeOf resolves a call expression to a function of the package (nil: builtin, conversion or foreign).
 func (t *Translator) calleeOf(call *ast.CallExpr) (*types.Func, ast.Expr) {
+	if t.selfForeign09(call) != nil { // [ext:T09] a function of the package that the area takes as foreign
+		return nil, nil
+	}
 	fun := ast.Unparen(call.Fun)
 	if ix, ok := fun.(*ast.IndexExpr); ok { // explicit instantiation f[T](...)
 		fun = ix.X
@@ -733,7 +740,7 @@ func (t *Translator) analyse() {
 					}
 				}
 				if id, ok := m.(*ast.Ident); ok { // a package function used as a value (trans_func.go)
-					if fn := t.funcValueRef(id); fn != nil && !t.ident07[fn.Name()] { // [ext:T07] not: TransSpec.Identity
+					if fn := t.funcValueRef(id); fn != nil && !t.ident07[fn.Name()] && !t.isSelfForeign09(fn) { // [ext:T07] not: TransSpec.Identity; [ext:T09] not: functions taken as foreign
 						fi.callees[t.funcFor(fn, id)] = true
 					}
 				}
